@@ -35,10 +35,8 @@ fn format_value_with_depth(value: &JsValue, depth: usize, seen: &mut Vec<usize>)
                 } else {
                     String::from("-Infinity")
                 }
-            } else if crate::prelude::math::fract(*n) == 0.0 && n.abs() < 1e15 {
-                format!("{}", *n as i64)
             } else {
-                format!("{}", n)
+                crate::value::number_to_string(*n)
             }
         }
         JsValue::String(s) => s.to_string(), // No quotes for console output
